@@ -95,7 +95,7 @@ package ast
 // Panic-freedom sweep (C10): every function of these files gets the obligations
 // nil / idx / assert / div / unreachable, with the thin contracts below.
 // ---------------------------------------------------------------------------
-//@ sweep C10 node_expr.go node_convert.go node_set.go node_arrays.go node_symbol.go node_query.go node_const.go helper.go bolt_listener.go node.go visitor.go
+//@ sweep C10 node_expr.go node_convert.go node_set.go node_arrays.go node_symbol.go node_query.go node_const.go cursors.go helper.go bolt_listener.go node.go visitor.go
 
 // ---------------------------------------------------------------------------
 // Parse listener (C10): an error latches in bl.err; pops return a usable value
